@@ -247,6 +247,19 @@ class Sectionable(BaseObject):
         """
         return self._sections
 
+    def _check_no_cycle(self, section):
+        """
+        Raises a ValueError if *section* is the current object or one of its parents;
+        adding it as a child would make it its own ancestor.
+
+        :param section: odML Section object about to become a child of the current object.
+        """
+        node = self
+        while node is not None:
+            if node is section:
+                raise ValueError("A Section cannot be added to itself or to one of its subsections.")
+            node = node.parent
+
     def insert(self, position, section):
         """
         Insert a Section at the child-list position. A ValueError will be raised,
@@ -260,6 +273,7 @@ class Sectionable(BaseObject):
             if section.name in self._sections:
                 raise ValueError("Section with name '%s' already exists." % section.name)
 
+            self._check_no_cycle(section)
             if section._parent is not None and section._parent is not self:
                 section._parent.remove(section)
             self._sections.insert(position, section)
@@ -275,6 +289,7 @@ class Sectionable(BaseObject):
         """
         from odml.section import BaseSection
         if isinstance(section, BaseSection):
+            self._check_no_cycle(section)
             self._sections.append(section)
             if section._parent is not None and section._parent is not self:
                 section._parent.remove(section)
